@@ -189,7 +189,7 @@ Qed.
 
 Lemma fin_For i a o s b : fin_ok b -> fin_ok (For i a o s b).
 Proof.
-  intros HI rho pcs c e x v Hwf Hg1 Hd Hc Hx Hv. cbn [wf] in Hwf. apply andb_prop in Hwf as (_ & Hwf). apply andb_prop in Hwf as (_ & Hwf).
+  intros HI rho pcs c e x v Hwf Hg1 Hd Hc Hx Hv. cbn [wf] in Hwf. apply andb_prop in Hwf as (_ & Hwf).
   cbn [quant] in Hc. rewrite dget_dmap in Hc. destruct (dget c (quant QFinal b)) as [eb|] eqn:Eeb; [|discriminate].
   inversion Hc; subst e. clear Hc.
   cbn [guard_C07_final_tail] in Hg1. unfold for_range in Hg1.
